@@ -16,7 +16,7 @@ RULE = (
     "[-2, dim+2) x numpy/bool/float index types is executed.  Non-trivial: cases on non-square grids "
     "or conventions with several grid kinds (out-of-range probes are part of every case)."
     " Also: datasets that declare their dimensions in the opposite order to the convention's, conventions constructed by hand with explicit coordinate names, meshes whose edge dimension is named but carried by no variable, and index components given as numpy int8/uint8/int16/... on grids with more cells than those types can count."
-    " Datasets also arrive with a history: warmed convention, copy, deep copy, pickle, netCDF round trip, fully chunked (dask), and hand-built conventions for coordinates autodetection would not pick (decoy pair), after warm / pickle. Also (operation sequences, mc/sequences.py): for 8 base datasets and every sequence `first [middle] query` over 36 operations (queries, in-place edits a user makes, transforms whose result is used next; quick length 2, thorough length 3) ending in one of this property's own queries, the answer on the one used object equals the answer on a never-used rebuild. Second phase: the first case of every distinct outcome and kind (thorough: every case, for expensive checks every kind) again with debug logging enabled, under numpy.errstate(all='ignore'), and in python -O child interpreters."
+    " Datasets also arrive with a history: warmed convention, copy, deep copy, pickle, netCDF round trip, fully chunked (dask), and hand-built conventions for coordinates autodetection would not pick (decoy pair), after warm / pickle. Also (operation sequences, mc/sequences.py): for 8 base datasets and every sequence `first [middle] query` over 36 operations (queries, in-place edits a user makes, transforms whose result is used next; quick length 2, thorough length 3, and for this property length 4 `first m1 m2 query` wherever m1 or m2 is an in-place edit) ending in one of this property's own queries, the answer on the one used object equals the answer on a never-used rebuild. Second phase: the first case of every distinct outcome and kind (thorough: every case, for expensive checks every kind) again with debug logging enabled, under numpy.errstate(all='ignore'), and in python -O child interpreters."
 )
 LEVEL_TEXT = ('every grid kind x every linear index with margin x every native index with margin, on every grid shape up to 6x6 (11x2) of every convention and every mesh of the library, compared with row-major arithmetic; out-of-range must raise')
 LEVEL_NOTE = ('numpy, the builders in mc/builders.py; shapes above the bound are not explored')
